@@ -75,8 +75,9 @@ partial def fldOfJson (j : Json) : Except String Fld := do
   | .ok cj => do
     let c ← clsOfJson cj
     let sh ← (← j.getObjVal? "shape").getStr?
-    pure (.nested n opt (if sh == "one" then .one else .many)
-      { ser := c.own, des := c.des, closedOwn := c.closedOwn, closedAny := c.closedAny, cid := c.cid } c.fields)
+    let ci : CInfo := { ser := c.own, des := c.des, closedOwn := c.closedOwn, closedAny := c.closedAny, cid := c.cid }
+    if sh == "map" then pure (.mapped n opt ci c.fields)
+    else pure (.nested n opt (if sh == "one" then .one else .many) ci c.fields)
   | .error _ => pure (.scalar n opt)
 end
 
@@ -117,6 +118,7 @@ def resToJson (r : DR J) : Json :=
 partial def regionWhyFs (S : StrFns) (camel : Bool) (L : List Mapper) (depth : Nat) : List Fld → String
   | [] => ""
   | .scalar _ _ :: fs => regionWhyFs S camel L depth fs
+  | .mapped _ _ _ _ :: fs => regionWhyFs S camel L depth fs
   | .nested n _ _ ci fs' :: fs =>
     let L' := ci.ser ++ thru n L
     let here :=
@@ -126,8 +128,8 @@ partial def regionWhyFs (S : StrFns) (camel : Bool) (L : List Mapper) (depth : N
       else if !prefixOK S fs' [] L' then "nested-level-round-collides-or-steps-differently"
       else if !reaggOK S L' fs' then
         (if fs'.any (fun f => match f with | .nested _ _ _ c2 _ => !(c2.ser.isEmpty && c2.desL.isEmpty) | _ => false)
-         then s!"own-mapper-at-depth>={depth + 2}-under-a-mapper-that-reaches-it"
-         else "reaggregation-level-not-ok")
+         then s!"reaggregation-off-the-handed-dict:own-mapper-at-depth>={depth + 2}-changed-from-above"
+         else "reaggregation-off-the-handed-dict:other")
       else if !prefixOK S fs' L' (camelTail camel) then "camel-round-collision"
       else regionWhyFs S camel (L' ++ camelTail camel) (depth + 1) fs'
     if here != "" then here else regionWhyFs S camel L depth fs
@@ -173,7 +175,8 @@ def runOne (cache : Cache) (j : Json) : Except String (List (String × Json) × 
   let (ms, cache') := if wrapOk then cAggregate S cache cid ovKey c.own c.fields ov camel
     else (aggregate S true c.own c.fields ov camel, cache)
   let md := aggregate S false c.desL c.fields ov camel
-  let doc := ser S camel ms x
+  -- the class-directed serializer (= `ser` on instances without Map-valued fields: theorem serC_eq_ser)
+  let doc := serC S camel ms c.fields x
   let spec := specSer S (effList c.own ov camel) c.fields x
   let xc ← treeOfJson (← j.getObjVal? "inst_canon")
   let des := deserK S camel ku c ov strict doc
@@ -181,7 +184,8 @@ def runOne (cache : Cache) (j : Json) : Except String (List (String × Json) × 
   let base := [
     ("ser", treeToJson doc),
     ("spec", treeToJson spec),
-    ("keysLaw", Json.bool (keysLaw S camel ms x doc)),
+    ("keysLaw", Json.bool (keysLaw S camel ms x (ser S camel ms x))),
+    ("serCisSer", Json.bool (!conf c.fields x || treeToJson doc == treeToJson (ser S camel ms x))),
     ("deser", resToJson des),
     ("aggS", mvToJson (.sub ms)),
     ("aggD", mvToJson (.sub md)),
